@@ -135,6 +135,10 @@ def url_keys(prog, rep):
         rep.violation("URL-KEYS", fi.short, "$domain", f"`{norm(n.value)[:70]}`: str.lstrip/strip take a SET of characters, not a prefix: 'wikipedia.org' loses its leading 'w', 'web.whatsapp.com' becomes 'eb.whatsapp.com'; the $domain key no longer holds the host", fi.loc(n), expected="netloc[4:] if netloc.startswith('www.') else netloc", found=norm(n.value))
     elif any(isinstance(c, ast.Call) and isinstance(c.func, ast.Attribute) and c.func.attr == "replace" for c in ast.walk(v)):
         rep.violation("URL-KEYS", fi.short, "$domain", f"`{norm(n.value)[:70]}` removes 'www.' wherever it occurs in the host, not only as a prefix", fi.loc(n))
+    elif ".netloc" not in t and any(isinstance(c, ast.Attribute) and c.attr in ("hostname", "port", "username") for c in ast.walk(v)):
+        rep.violation("URL-KEYS", fi.short, "$domain", f"`{norm(n.value)[:70]}` is built from urlparse(url).hostname, not .netloc: hostname is lower-cased and leaves out the port and the user part, so 'localhost:5600' and 'localhost:5666' (or 'GitHub.com' and 'github.com') are given the same $domain", fi.loc(n), expected="netloc minus one leading 'www.'", found=t[:120])
+    elif any(isinstance(c, ast.Call) and isinstance(c.func, ast.Attribute) and c.func.attr in ("lower", "upper", "casefold", "split", "rsplit", "partition", "rpartition") for c in ast.walk(v)):
+        rep.violation("URL-KEYS", fi.short, "$domain", f"`{norm(n.value)[:70]}` changes the network location beyond dropping one leading 'www.' (case folding / cutting at a separator): distinct hosts or ports are given the same $domain", fi.loc(n), expected="netloc minus one leading 'www.'", found=t[:120])
     else:
         rep.undecided("URL-KEYS", fi.short, "$domain", f"unrecognised way of dropping the www. prefix: `{t[:100]}`", fi.loc(n))
 
@@ -415,6 +419,7 @@ def check(prog, rep):
 
 
 VARIANTS = [
+    ("B $domain taken from the parsed hostname", "aw_transform/split_url_events.py", "                parsed_url.netloc[4:]\n                if parsed_url.netloc[:4] == \"www.\"\n                else parsed_url.netloc\n", "                (parsed_url.hostname or \"\")[4:]\n                if (parsed_url.hostname or \"\")[:4] == \"www.\"\n                else (parsed_url.hostname or \"\")\n", "URL-KEYS"),
     ("B www. dropped with lstrip (a character set)", "aw_transform/split_url_events.py", '            event.data["$domain"] = (\n                parsed_url.netloc[4:]\n                if parsed_url.netloc[:4] == "www."\n                else parsed_url.netloc\n            )', '            event.data["$domain"] = parsed_url.netloc.lstrip("www.")', "URL-KEYS"),
     ("B $path holds the query string", "aw_transform/split_url_events.py", 'event.data["$path"] = parsed_url.path', 'event.data["$path"] = parsed_url.query', "URL-KEYS"),
     ("OK www. dropped with startswith", "aw_transform/split_url_events.py", 'if parsed_url.netloc[:4] == "www."', 'if parsed_url.netloc.startswith("www.")', "ok"),
